@@ -20,6 +20,8 @@ VARIANTS = {
     # the same without optimisation: at -O1 gcc expands constant-size memset / memcpy / char_traits::assign "by pieces" into plain vector stores *after* the
     # tsan pass, so those writes are invisible to the detector; at -O0 every one of them stays a libc call and goes through the --wrap'ped wrappers
     "sched0": {"sut": ["-O0", "-fsanitize=thread", "-fsanitize-coverage=trace-pc"], "rt": ["-O2"], "link": [], "defs": []},
+    # the other choice a platform may make for plain char (ARM, PowerPC): the same simulators with -funsigned-char on every translation unit
+    "plainuc": {"sut": ["-O1", "-funsigned-char", "-fsanitize-coverage=trace-pc"], "rt": ["-O2", "-funsigned-char"], "link": [], "defs": []},
     # reach measurement only (tools/coverage.py): gcov counters on the library code, never used by a registered check
     "cov": {"sut": ["-O0", "--coverage", "-fsanitize-coverage=trace-pc"], "rt": ["-O2"], "link": ["--coverage"], "defs": []},
     "schedcov": {"sut": ["-O0", "--coverage", "-fprofile-update=single", "-fsanitize=thread", "-fsanitize-coverage=trace-pc"], "rt": ["-O2"], "link": ["--coverage"], "defs": ["-DSIM_GCOV"]},
